@@ -483,8 +483,11 @@ pub fn exec_case<S: Sch>(case: &Case, out: &mut String, with_acc: bool) {
                     o.push(f(guard(|| e.verify())));
                     o.push(f(guard(|| e.to_base64().parse::<Enr<HKey<S::K>>>().is_ok())));
                     o.push(f(guard(|| {
+                        // the update happens: result, effect, sequence number, signature
                         let mut c = e.clone();
-                        c.set_udp4(9, key).is_ok()
+                        let r = c.set_udp4(9, key).is_ok() && c.udp4() == Some(9);
+                        let r2 = c.remove_udp4(key).is_ok();
+                        r && r2 && c.udp4().is_none() && c.seq() == e.seq().wrapping_add(2) && c.verify()
                     })));
                     o.push(f(guard(|| Enr::<HKey<S::K>>::builder().tcp4(1).build(key).is_ok())));
                     o.push(f(guard(|| format!("{e}").len() > 4 && format!("{e:?}").len() > 4)));
@@ -530,6 +533,8 @@ pub fn exec_case<S: Sch>(case: &Case, out: &mut String, with_acc: bool) {
                     let got = result.lock().map(|g| g.clone()).unwrap_or_else(|_| "poisoned".into());
                     outs.push(if joined { got } else { format!("{got}!") });
                 }
+                // and while the thread is unwinding from a panic (a shutdown guard dropped by a panic)
+                outs.push(crate::obs::during_unwind(|| calls(e, key, &enc)).unwrap_or_else(|| "pppppp".into()));
                 let _ = key.take_log();
                 writeln!(out, "out res=ok normal={normal} td={}", outs.join(",")).unwrap();
                 continue;
